@@ -971,6 +971,11 @@ impl Element {
                                     key => gen_lit_str(key),
                                 }
                             )?;
+                            if lvalue_path_from_data_scope.is_some() {
+                                // (the list path of a nested loop contains the index of the outer loop:
+                                // when that index changes every item path of this loop changes)
+                                p.lvalue_path_index_state_prefix(w, scopes)?;
+                            }
                             p.lvalue_state_expr(w, scopes, false)?;
                             write!(w, ":undefined,")?;
                             if lvalue_path_from_data_scope.is_some() {
@@ -1139,6 +1144,11 @@ impl Element {
                                         let p = expression.to_proc_gen_prepare(w, scopes)?;
                                         w.expr_stmt(|w| {
                                             write!(w, "if(C||K||")?;
+                                            if attr_name_maybe_event_binding(name)
+                                                && p.has_script_lvalue_path(scopes)
+                                            {
+                                                p.lvalue_path_index_state_prefix(w, scopes)?;
+                                            }
                                             p.lvalue_state_expr(w, scopes, false)?;
                                             write!(w, ")R.l(N,{},", gen_lit_str(name))?;
                                             p.value_expr(w)?;
@@ -1289,6 +1299,12 @@ impl NormalAttribute {
                 let p = expression.to_proc_gen_prepare(w, scopes)?;
                 w.expr_stmt(|w| {
                     write!(w, "if(C||K||")?;
+                    if (is_model && p.has_model_lvalue_path(scopes))
+                        || (maybe_event_binding && p.has_script_lvalue_path(scopes))
+                    {
+                        // (the path handed over contains the loop index)
+                        p.lvalue_path_index_state_prefix(w, scopes)?;
+                    }
                     p.lvalue_state_expr(w, scopes, false)?;
                     write!(w, ")O(N,{},", attr_name)?;
                     p.value_expr(w)?;
@@ -1427,6 +1443,9 @@ impl Attribute {
                 let p = expression.to_proc_gen_prepare(w, scopes)?;
                 w.expr_stmt(|w| {
                     write!(w, "if(C||K||")?;
+                    if p.has_script_lvalue_path(scopes) {
+                        p.lvalue_path_index_state_prefix(w, scopes)?;
+                    }
                     p.lvalue_state_expr(w, scopes, false)?;
                     write!(w, ")R.p(N,{},", attr_name)?;
                     p.value_expr(w)?;
@@ -1505,6 +1524,9 @@ impl EventBinding {
                 let p = expression.to_proc_gen_prepare(w, scopes)?;
                 w.expr_stmt(|w| {
                     write!(w, "if(C||K||")?;
+                    if p.has_script_lvalue_path(scopes) {
+                        p.lvalue_path_index_state_prefix(w, scopes)?;
+                    }
                     p.lvalue_state_expr(w, scopes, false)?;
                     write!(w, ")R.v(N,{},", gen_lit_str(&self.name.name),)?;
                     p.value_expr(w)?;
